@@ -298,7 +298,8 @@ def check_fault_atomicity(ctx, rule="C13.U"):
                     return "store " + A.norm(t)
         return None
 
-    eff = {name: any(direct_effect(x, unit_module_locals(fn)) for x in ast.walk(fn)) for name, fn in ex.methods.items()}
+    ums_of = {name: unit_module_locals(fn) for name, fn in ex.methods.items()}
+    eff = {name: any(direct_effect(x, ums_of[name]) for x in ast.walk(fn)) for name, fn in ex.methods.items()}
     changed = True
     while changed:
         changed = False
